@@ -61,6 +61,7 @@ class State:
     def __init__(self) -> None:
         self.tags: dict[str, set[str]] = {}
         self.verified = False
+        self.verified_src: set[str] = set()  # the load call sites whose value was compared equal to the key on this path
         self.open_writes: list[tuple[ast.AST, set[str]]] = []  # active `with` items writing
         self.frames: list[dict[str, set[str]]] = []
         self.last_call: ast.AST | None = None
@@ -108,6 +109,7 @@ class Interp:
                 return
             if callee in LOADS:
                 out.add("load")
+                out.add(f"src@{getattr(n, 'lineno', 0)}:{getattr(n, 'col_offset', 0)}:{fn.qual}")
             if callee in TMP_SOURCES:
                 out.add("tmp")
             helper = self.tree.funcs.get(callee) if callee else None
@@ -116,6 +118,8 @@ class Interp:
                 # returns a digest of the key - str / srepr / hash of it - does not return the key)
                 summary = self.return_tags(helper, n, st, fn)
                 if summary is not None:
+                    if "load" in summary:  # each call of a loading helper is a load of its own (of the file it is given)
+                        summary = {t for t in summary if not t.startswith("src@")} | {f"src@{getattr(n, 'lineno', 0)}:{getattr(n, 'col_offset', 0)}:{fn.qual}"}
                     out |= summary
                     return
                 out.add("opaque")  # a helper of the package whose result the rule cannot attribute
@@ -190,6 +194,10 @@ class Interp:
                 ret_tags = self.tags(value, st, fn) if value is not None else set()
                 if value is not None and isinstance(value, ast.Constant) and value.value is None:
                     ret_tags = {"none"}
+                # a load is identified by its call string: two calls of one loading helper are two loads (of two files)
+                site = f"<-{getattr(call, 'lineno', 0)}:{getattr(call, 'col_offset', 0)}"
+                ret_tags = {(t + site if t.startswith("src@") else t) for t in ret_tags}
+                st.verified_src = {t + site for t in st.verified_src}
                 st.tags = st.frames.pop()
                 fn_stack.pop()
                 st.last_call = call
@@ -398,6 +406,11 @@ class Interp:
                       f"{fn.qual}: `{unparse(node)[:60]}` returns what pickle.load produced without comparing it with the query expression"
                       " - the file name is sha256(str(expr)) / hash(expr), neither is injective (assumptions and non-SymPy attributes do not print)",
                       {"tags": sorted(t)})
+        elif "load" in t and st.verified_src and {x for x in t if x.startswith("src@")} and st.verified_src.isdisjoint({x for x in t if x.startswith("src@")}):
+            self.flag("R-VERIFY", f"{key_base}::verified-another-load", node,
+                      f"{fn.qual}: `{unparse(node)[:60]}` returns what one load produced, but the value that was compared with the query expression came out of ANOTHER load"
+                      " - key and result live in two files that are replaced separately, so a writer killed (or a second process writing) between the two replacements pairs the key of one expression with the unfolding of another",
+                      {"returned": sorted(x for x in t if x.startswith("src@")), "verified": sorted(st.verified_src)})
         elif "load" in t:
             self.ok_counts["verified_returns"] += 1
         elif "doit" in t:
@@ -462,6 +475,7 @@ class Interp:
             pair = ("load" in tl and "key" in tr) or ("load" in tr and "key" in tl)
             if pair and ((isinstance(op, ast.Eq) and outcome) or (isinstance(op, ast.NotEq) and not outcome)):
                 st.verified = True
+                st.verified_src |= {t for t in (tl if "load" in tl else tr) if t.startswith("src@")}
         if isinstance(test, ast.Call) and isinstance(test.func, ast.Name) and test.func.id == "isinstance" and len(test.args) == 2 and isinstance(test.args[0], ast.Name):
             # isinstance(None, <container type>) is False: the sentinel cannot pass a shape test
             if self.tags(test.args[0], st, fn) == {"none"} and "NoneType" not in unparse(test.args[1]) and outcome:
@@ -471,6 +485,7 @@ class Interp:
             tr = self.tags(test.args[0], st, fn) if test.args else set()
             if (("load" in tl and "key" in tr) or ("load" in tr and "key" in tl)) and outcome:
                 st.verified = True
+                st.verified_src |= {t for t in (tl if "load" in tl else tr) if t.startswith("src@")}
 
 
 def check_hash_function(ctx: Check, tree: Tree) -> None:
@@ -750,7 +765,7 @@ def run(ctx: Check, tree: Tree) -> None:
             n_infeasible += 1
     ctx.stats["infeasible_paths_pruned"] = n_infeasible
     # anchors: a load and a doit must exist somewhere reachable, otherwise the rule is vacuous
-    reach_fns = [entry] + [tree.funcs[c] for _, c in tree.calls_in(entry) if c in tree.funcs and expand(c)]
+    reach_fns = [tree.funcs[q] for q in sorted(tree.reachable(ENTRY)) if q in tree.funcs and (q == ENTRY or expand(q))]
     n_loads = sum(1 for f in reach_fns for _, c in tree.calls_in(f) if c in LOADS)
     n_doit = sum(1 for f in reach_fns for n in walk_function(f.node) if isinstance(n, ast.Call) and isinstance(n.func, ast.Attribute) and n.func.attr == "doit")
     ctx.stats.update(loads=n_loads, doit_calls=n_doit, **interp.ok_counts)
